@@ -80,6 +80,15 @@ impl<T: Eq + PartialOrd + Send + Sync, A: Clone> Graph<T, A> {
                 ==> (#[trigger] self.predecessors_vec@[i]@[k]).node_index < self.n()
     }
 
+    // ---- position-keyed successor / predecessor index sets (an absent key counts as the empty set) ----
+    pub open spec fn succ_set(&self, i: usize) -> Set<usize> {
+        if self.successors_map@.contains_key(i) { self.successors_map@[i]@ } else { Set::empty() }
+    }
+
+    pub open spec fn pred_set(&self, i: usize) -> Set<usize> {
+        if self.predecessors_map@.contains_key(i) { self.predecessors_map@[i]@ } else { Set::empty() }
+    }
+
     // ---- position-keyed edge store ----
     pub open spec fn has_pair(&self, u: usize, v: usize) -> bool {
         self.edges_map@.contains_key(u) && self.edges_map@[u]@.contains_key(v)
@@ -305,6 +314,19 @@ pub open spec fn ae_traversal<T: Eq + PartialOrd + Send + Sync, A: Clone>(pre: G
         })
 }
 
+// the position-keyed index sets gain exactly the new adjacency: u -> v in successors (and v -> u when undirected),
+// v <- u in predecessors when directed; every other set is unchanged
+pub open spec fn ae_index<T: Eq + PartialOrd + Send + Sync, A: Clone>(pre: Graph<T, A>, e: Edge<T, A>, post: Graph<T, A>, r: Result<(), Error>) -> bool {
+    &&& pre.stores(e) ==> ({
+            let iu = post.nodes_map@[e.u];
+            let iv = post.nodes_map@[e.v];
+            &&& forall|i: usize, x: usize| #[trigger] post.succ_set(i).contains(x) ==
+                    (pre.succ_set(i).contains(x) || (i == iu && x == iv) || (!pre.specs.directed && i == iv && x == iu))
+            &&& forall|i: usize, x: usize| #[trigger] post.pred_set(i).contains(x) ==
+                    (pre.pred_set(i).contains(x) || (pre.specs.directed && i == iv && x == iu))
+        })
+}
+
 // everything add_edge guarantees about one call (the step relation the batch functions fold)
 pub open spec fn add_edge_rel<T: Eq + PartialOrd + Send + Sync, A: Clone>(pre: Graph<T, A>, e: Edge<T, A>, post: Graph<T, A>, r: Result<(), Error>) -> bool {
     &&& ae_outcome(pre, e, post, r)
@@ -315,6 +337,7 @@ pub open spec fn add_edge_rel<T: Eq + PartialOrd + Send + Sync, A: Clone>(pre: G
     &&& ae_wf(pre, e, post, r)
     &&& ae_store(pre, e, post, r)
     &&& ae_traversal(pre, e, post, r)
+    &&& ae_index(pre, e, post, r)
 }
 
 // ---- batch adds: the state is add_edge folded over a prefix of the batch ----
